@@ -3,15 +3,72 @@ From Coq Require Import List ZArith Bool.
 From Coq.Strings Require Import Byte.
 Import ListNotations.
 From Zap Require Import Base.Wire.
+From Zap Require C01.Model.
+From Zap Require C02.Model.
+From Zap Require C03.Model.
+From Zap Require C04.Model.
+From Zap Require C05.Model.
+From Zap Require C06.Model.
+From Zap Require C07.Model.
+From Zap Require C08.Model.
+From Zap Require C09.Model.
+From Zap Require C10.Model.
+From Zap Require C11.Model.
+From Zap Require C12.Model.
+From Zap Require C13.Model.
+From Zap Require C14.Model.
+From Zap Require C15.Model.
+From Zap Require C16.Model.
 From Zap Require C17.Model.
+From Zap Require C18.Model.
+From Zap Require C19.Model.
+From Zap Require C20.Model.
 
 Definition dispatch_model (p : Z) (i : sx) : sx :=
   match p with
+  | 1%Z => C01.Model.model i
+  | 2%Z => C02.Model.model i
+  | 3%Z => C03.Model.model i
+  | 4%Z => C04.Model.model i
+  | 5%Z => C05.Model.model i
+  | 6%Z => C06.Model.model i
+  | 7%Z => C07.Model.model i
+  | 8%Z => C08.Model.model i
+  | 9%Z => C09.Model.model i
+  | 10%Z => C10.Model.model i
+  | 11%Z => C11.Model.model i
+  | 12%Z => C12.Model.model i
+  | 13%Z => C13.Model.model i
+  | 14%Z => C14.Model.model i
+  | 15%Z => C15.Model.model i
+  | 16%Z => C16.Model.model i
   | 17%Z => C17.Model.model i
+  | 18%Z => C18.Model.model i
+  | 19%Z => C19.Model.model i
+  | 20%Z => C20.Model.model i
   | _ => SL []
   end.
 Definition dispatch_spec (p : Z) (i o : sx) : bool :=
   match p with
+  | 1%Z => C01.Model.spec i o
+  | 2%Z => C02.Model.spec i o
+  | 3%Z => C03.Model.spec i o
+  | 4%Z => C04.Model.spec i o
+  | 5%Z => C05.Model.spec i o
+  | 6%Z => C06.Model.spec i o
+  | 7%Z => C07.Model.spec i o
+  | 8%Z => C08.Model.spec i o
+  | 9%Z => C09.Model.spec i o
+  | 10%Z => C10.Model.spec i o
+  | 11%Z => C11.Model.spec i o
+  | 12%Z => C12.Model.spec i o
+  | 13%Z => C13.Model.spec i o
+  | 14%Z => C14.Model.spec i o
+  | 15%Z => C15.Model.spec i o
+  | 16%Z => C16.Model.spec i o
   | 17%Z => C17.Model.spec i o
+  | 18%Z => C18.Model.spec i o
+  | 19%Z => C19.Model.spec i o
+  | 20%Z => C20.Model.spec i o
   | _ => false
   end.
